@@ -27,6 +27,7 @@ NAME_POOL = [
     ("spam",), ("Spam",), ("spam ",), ("eggs",), ("EGGS",), ("fried eggs",), ("sauce",), ("white sauce",), ("flour",),
     ("a b",), ("a  b",), (2, " buns"), ("buns for ", 4), ("rest area",), ("g force",), ("of mice",), ("x",), ("y",), ("z",),
     ("it's",), ('say "hi"',), ("a,b",), ("50% cream",), ("café",), ("tea spoon tin",), ("1st cut",), ("back\\slash",), ("tab\there",),
+    ("gâteau",), ("lépiotes",), ("cupões",), ("kgß",), ("ofen",), ("restéd",), ("ml²",),
 ]
 STEP_POOL = [("fry",), ("chop",), ("boil",), ("mix well",), ("bake at 180",), ("simmer ", 10, " min",), ("slice, thinly",), ("it's done",), ("2 minute rest",)]
 
@@ -368,10 +369,11 @@ def gen_ref_amount(rng, total=None):
     if k < 0.62:
         return ("rem", rng.choice(["remaining", "remainder", "rest", "left over", "Left  Over", "REST", "leftover"]), rng.choice(["", " of", " of the"]))
     if k < 0.76:
-        return ("prop", rng.choice([Fraction(1, 2), Fraction(1, 3), Fraction(2, 2), 0.5, 1.0, 1, Fraction(3, 4), 0.25]), rng.choice([" of", " of the", "  OF"]))
+        return ("prop", rng.choice([Fraction(1, 2), Fraction(1, 3), Fraction(2, 2), 0.5, 1.0, 1, Fraction(3, 4), 0.25, 0.9999999999, 1.0000000001,
+                                    Fraction(99999999999, 100000000000)]), rng.choice([" of", " of the", "  OF"]))
     if k < 0.9:
-        return ("pct", rng.choice([50, 100, 25, 100.0, 12.5, Fraction(100, 3), Fraction(200, 2)]), rng.choice(["%", " %", "% of", "% of the", " %  of"]))
-    return ("times", rng.choice([0.5, 1.0, 1, Fraction(1, 2), 2]), rng.choice(["", " "]))
+        return ("pct", rng.choice([50, 100, 25, 100.0, 12.5, Fraction(100, 3), Fraction(200, 2), 99.99999999, 100.00000001]), rng.choice(["%", " %", "% of", "% of the", " %  of"]))
+    return ("times", rng.choice([0.5, 1.0, 1, Fraction(1, 2), 2, 0.9999999999]), rng.choice(["", " "]))
 
 
 def _leaf(name, amt=None):
@@ -400,6 +402,21 @@ CORPUS = [
     # used once in full in its own block and again in a later block
     [[(None, False, _leaf("lemon", ("qty", 1, None, "", ""))), ([("juice",)], False, ("step", ("squeeze",), [_leaf("lemon")]))],
      [(None, False, ("step", ("garnish",), [_leaf("cake"), ("step", ("zest",), [_leaf("lemon")])]))]],
+    # a padded (quoted) spelling of an earlier name, as a statement of its own and as a step input
+    [[(None, False, _leaf("spam")), (None, False, _leaf("spam ")), (None, False, ("step", ("fry",), [_leaf(" Spam")]))]],
+    [[(None, False, _leaf("spam", ("qty", 100, "g", "", ""))), (None, False, ("leaf", None, ("spam  ",))), (None, False, _leaf("eggs"))]],
+    # a titled (:=) definition whose only use is a statement that is just that reference
+    [[([("sauce",)], True, ("step", ("boil",), [_leaf("tomato", ("qty", 400, "g", "", "")), _leaf("onion", ("qty", 1, None, "", ""))])),
+      (None, False, _leaf("sauce"))]],
+    [[([("stock",)], True, _leaf("bones", ("qty", 100, "g", "", ""))), (None, False, _leaf("stock", ("qty", 100, "g", " ", " of")))]],
+    # a fold inside a definition that is itself used twice under different inputs of one step
+    [[(None, False, _leaf("onion", ("qty", 1, None, "", ""))),
+      ([("sauce",)], False, ("step", ("simmer",), [_leaf("onion"), _leaf("tomatoes", ("qty", 2, "cans", " ", ""))])),
+      (None, False, ("step", ("layer",), [("step", ("mix",), [_leaf("sauce", ("prop", Fraction(1, 2), " of the")), _leaf("pasta")]),
+                                           _leaf("sauce", ("rem", "remaining", "")), _leaf("cheese")]))]],
+    [[(None, False, _leaf("carrots", ("qty", 3, None, "", ""))),
+      ([("veg",), ("water",)], False, ("step", ("boil",), [_leaf("carrots")])),
+      (None, False, ("step", ("serve",), [_leaf("veg"), ("step", ("make gravy",), [_leaf("water"), _leaf("granules")])]))]],
     # a name redefined in a later block
     [[([("batter",)], False, ("step", ("whisk",), [_leaf("eggs", ("qty", 2, None, "", "")), _leaf("flour", ("qty", 100, "g", "", ""))]))],
      [(None, False, _leaf("milk")), ([("batter",)], True, _leaf("egg", ("qty", 1, None, "", "")))]],
